@@ -15,8 +15,9 @@ VARIABLES cur,      \* <<first,last>> current range
           exp,      \* expected range of t's CAS loop
           got,      \* got[t]: sequence of indices returned to t (-1 = empty)
           nops,
-          fresh     \* fresh[t]: exp[t] comes from the initial load (not from a failed CAS)
-vars == <<cur, pc, side, exp, got, nops, fresh>>
+          fresh,    \* fresh[t]: exp[t] comes from the initial load (not from a failed CAS)
+          exp0      \* exp0[t]: the range seen by the initial load of the current call
+vars == <<cur, pc, side, exp, got, nops, fresh, exp0>>
 
 Empty(r) == r[1] >= r[2]
 
@@ -27,6 +28,7 @@ Init == /\ cur = <<First, Last>>
         /\ got = [t \in Thread |-> <<>>]
         /\ nops = [t \in Thread |-> 0]
         /\ fresh = [t \in Thread |-> TRUE]
+        /\ exp0 = [t \in Thread |-> <<0, 0>>]
 
 Owner == CHOOSE t \in Thread : TRUE
 
@@ -38,11 +40,15 @@ Load(t) == /\ pc[t] = "idle" /\ nops[t] < MaxOps
            /\ pc' = [pc EXCEPT ![t] = "loaded"]
            /\ nops' = [nops EXCEPT ![t] = @ + 1]
            /\ fresh' = [fresh EXCEPT ![t] = TRUE]
+           /\ exp0' = IF "PopRightIndexBeforeLoop" \in Deviations THEN [exp0 EXCEPT ![t] = cur] ELSE exp0
            /\ UNCHANGED <<cur, got>>
 
 \* the index pop_right hands out: the code returns desired.last = last - 1
 RightIndex(r) == IF "PopRightReturnsOldLast" \in Deviations THEN r[2] ELSE r[2] - 1
 
+\* Deviation "PopRightIndexBeforeLoop": pop_right computes the index it returns from the range it loaded first,
+\* before the CAS loop, and returns it even when the CAS succeeded on a refreshed range (seeded change C11-3)
+RightResult(t) == IF "PopRightIndexBeforeLoop" \in Deviations THEN exp0[t][2] - 1 ELSE RightIndex(cur)
 \* Deviation "PopLeftChecksEmptyOnce": pop_left tests for emptiness only before its CAS loop, not after a
 \* failed CAS has refreshed the expected range (seeded change C11-2)
 ChecksEmpty(t) == ~("PopLeftChecksEmptyOnce" \in Deviations /\ side[t] = "L" /\ ~fresh[t])
@@ -55,13 +61,13 @@ Step(t) ==
           ELSE IF cur = exp[t]
                   THEN /\ cur' = IF side[t] = "L" THEN <<cur[1] + 1, cur[2]>> ELSE <<cur[1], cur[2] - 1>>
                        /\ got' = [got EXCEPT ![t] =
-                                     Append(@, IF side[t] = "L" THEN cur[1] ELSE RightIndex(cur))]
+                                     Append(@, IF side[t] = "L" THEN cur[1] ELSE RightResult(t))]
                        /\ pc' = [pc EXCEPT ![t] = "idle"]
                        /\ UNCHANGED <<exp, fresh>>
                   ELSE /\ exp' = [exp EXCEPT ![t] = cur]       \* failed CAS reloads expected
                        /\ fresh' = [fresh EXCEPT ![t] = FALSE]
                        /\ UNCHANGED <<cur, got, pc>>
-    /\ UNCHANGED <<side, nops>>
+    /\ UNCHANGED <<side, nops, exp0>>
 
 Next == \E t \in Thread : Load(t) \/ Step(t)
 Spec == Init /\ [][Next]_vars /\ \A t \in Thread : WF_vars(Step(t))
